@@ -652,3 +652,107 @@ func feasibleState(fn *ssa.Function, classify func(cond ssa.Value) (atom int, tr
 	dfs(state{fn.Blocks[0], 0, 0})
 	return found
 }
+
+// edgeGuards: the branch facts holding when control flows over the edge pred -> succ: those dominating pred plus pred's own
+// If edge when it distinguishes succ.
+func edgeGuards(pred, succ *ssa.BasicBlock) []Guard {
+	out := guardsAt(pred)
+	if len(pred.Instrs) > 0 {
+		if ifi, ok := pred.Instrs[len(pred.Instrs)-1].(*ssa.If); ok && len(pred.Succs) == 2 && pred.Succs[0] != pred.Succs[1] {
+			for idx := 0; idx < 2; idx++ {
+				if pred.Succs[idx] == succ {
+					out = append(out, normGuard(Guard{Cond: ifi.Cond, True: idx == 0, If: ifi})...)
+				}
+			}
+		}
+	}
+	return out
+}
+
+// cmpConst: guard g states `v <op> k` for an integer constant k; returns the value, the operator normalised so that the
+// constant is on the right and the polarity applied (EQL/NEQ/LSS/...), and k.
+func cmpConst(g Guard) (ssa.Value, token.Token, int64, bool) {
+	b, ok := g.Cond.(*ssa.BinOp)
+	if !ok {
+		return nil, 0, 0, false
+	}
+	op := b.Op
+	x, y := b.X, b.Y
+	k, isK := constInt(y)
+	if !isK {
+		if k2, ok2 := constInt(x); ok2 {
+			k, isK = k2, true
+			x, y = y, x
+			switch op {
+			case token.LSS:
+				op = token.GTR
+			case token.GTR:
+				op = token.LSS
+			case token.LEQ:
+				op = token.GEQ
+			case token.GEQ:
+				op = token.LEQ
+			}
+		}
+	}
+	if !isK {
+		return nil, 0, 0, false
+	}
+	if !g.True {
+		switch op {
+		case token.EQL:
+			op = token.NEQ
+		case token.NEQ:
+			op = token.EQL
+		case token.LSS:
+			op = token.GEQ
+		case token.GEQ:
+			op = token.LSS
+		case token.GTR:
+			op = token.LEQ
+		case token.LEQ:
+			op = token.GTR
+		default:
+			return nil, 0, 0, false
+		}
+	}
+	return x, op, k, true
+}
+
+// derefStructField: the name of the field read by an ssa.Field instruction.
+func derefStructField(f *ssa.Field) string {
+	if st, ok := f.X.Type().Underlying().(*types.Struct); ok && f.Field < st.NumFields() {
+		return st.Field(f.Field).Name()
+	}
+	return ""
+}
+
+// sizeMultiple: v is HostSet.Size() multiplied by positive integer constants (conversions ignored); returns the product.
+func sizeMultiple(v ssa.Value) (int64, bool) {
+	for {
+		if x, ok := v.(*ssa.Convert); ok {
+			v = x.X
+			continue
+		}
+		break
+	}
+	if call, ok := v.(*ssa.Call); ok && methodName(call.Common()) == "Size" {
+		return 1, true
+	}
+	if bo, ok := v.(*ssa.BinOp); ok && bo.Op == token.MUL {
+		for _, pair := range [][2]ssa.Value{{bo.X, bo.Y}, {bo.Y, bo.X}} {
+			k, isK := constInt(pair[1])
+			if !isK {
+				if cv, ok := pair[1].(*ssa.Convert); ok {
+					k, isK = constInt(cv.X)
+				}
+			}
+			if isK && k >= 1 {
+				if m, ok := sizeMultiple(pair[0]); ok {
+					return m * k, true
+				}
+			}
+		}
+	}
+	return 0, false
+}
